@@ -132,6 +132,9 @@ pub struct MapStats {
     pub dup_checks: u64,
     pub hash_epochs: u64,
     pub insertion_histories: u64,
+    /// prints of a freshly built map made right after a different map of the same size was
+    /// printed and dropped on the same thread (residue of the previous map must not show)
+    pub prints_after_other_map: u64,
     pub permuted_texts: u64,
     pub value_roundtrips: u64,
     pub type_roundtrips: u64,
@@ -231,6 +234,7 @@ pub fn check_map(map_seed: u64, mask: u64, n_seeds: usize, only_seed: Option<u64
             for kind in [Kind::Witness, Kind::Param] {
                 // ---- construction routes
                 let mut built: Vec<(String, AnyMap)> = Vec::new();
+                let mut base_hash: HashMap<WitnessName, Value> = HashMap::new();
                 // API route with several insertion histories
                 for hist in 0..3 {
                     let mut order: Vec<usize> = (0..logical.entries.len()).collect();
@@ -259,6 +263,9 @@ pub fn check_map(map_seed: u64, mask: u64, n_seeds: usize, only_seed: Option<u64
                         }
                     }
                     stats.insertion_histories += 1;
+                    if hist == 0 {
+                        base_hash = m.clone();
+                    }
                     built.push((format!("api/h{hist}"), AnyMap::from_hash(kind, m)));
                 }
                 let reference = built[0].1.clone();
@@ -286,7 +293,45 @@ pub fn check_map(map_seed: u64, mask: u64, n_seeds: usize, only_seed: Option<u64
                     }
                 }
                 // ---- D1, D2 on every built map
-                for (route, m) in &built {
+                // the built maps, then multi-step histories on this thread: a *different* map of the
+                // same size is built, printed and dropped, and only then the map under test is built
+                // afresh and printed (nothing of the dead map may survive in what is printed)
+                let n_built = built.len();
+                let n_after = if logical.entries.is_empty() { 0 } else { 3 };
+                for idx in 0..n_built + n_after {
+                    let fresh: AnyMap;
+                    let route_s: String;
+                    let (route, m): (&String, &AnyMap) = if idx < n_built {
+                        (&built[idx].0, &built[idx].1)
+                    } else {
+                        let variant = idx - n_built;
+                        let len = logical.entries.len();
+                        let mut gh: HashMap<WitnessName, Value> = HashMap::new();
+                        for (i, (n, _, v)) in logical.entries.iter().enumerate() {
+                            match variant {
+                                0 => gh.insert(WitnessName::from_str_unchecked(n), Value::from(i % 2 == 0)),
+                                1 => gh.insert(WitnessName::from_str_unchecked(&format!("{n}_G")), v.clone()),
+                                _ => gh.insert(WitnessName::from_str_unchecked(n), if len > 1 { logical.entries[(i + 1) % len].2.clone() } else { Value::from(false) }),
+                            };
+                        }
+                        let ghost = AnyMap::from_hash(kind, gh);
+                        let gp = match guarded(|| ghost.print()) {
+                            Ok(p) => p,
+                            Err(p) => return viol("PANIC", format!("printing a map panicked: {p}"), "api/other-map"),
+                        };
+                        match guarded(|| AnyMap::parse_module(kind, &gp)) {
+                            Err(p) => return viol("PANIC", format!("parsing a printed module panicked: {p}"), "api/other-map"),
+                            Ok(Ok(back)) if back == ghost => {}
+                            Ok(Ok(_)) => return viol("D2-MODULE", format!("printed module parses back to a different map:\n{gp}"), "api/other-map"),
+                            Ok(Err(e)) => return viol("D2-MODULE", format!("printed module does not parse back ({}):\n{gp}", e.lines().last().unwrap_or("")), "api/other-map"),
+                        }
+                        let copy = base_hash.clone();
+                        drop(ghost);
+                        fresh = AnyMap::from_hash(kind, copy);
+                        stats.prints_after_other_map += 1;
+                        route_s = format!("api/after-other-map{variant}");
+                        (&route_s, &fresh)
+                    };
                     let printed = match guarded(|| m.print()) {
                         Ok(p) => p,
                         Err(p) => return viol("PANIC", format!("printing a map panicked: {p}"), route),
@@ -449,6 +494,7 @@ pub fn run(o: &Opts) -> i32 {
         total.dup_checks += stats.dup_checks;
         total.hash_epochs += stats.hash_epochs;
         total.insertion_histories += stats.insertion_histories;
+        total.prints_after_other_map += stats.prints_after_other_map;
         total.permuted_texts += stats.permuted_texts;
         total.value_roundtrips += stats.value_roundtrips;
         total.type_roundtrips += stats.type_roundtrips;
@@ -528,6 +574,7 @@ pub fn run(o: &Opts) -> i32 {
     rep.count("duplicate_texts_checked", total.dup_checks);
     rep.count("fault_hash_seed_changes_epochs", total.hash_epochs);
     rep.count("fault_insertion_histories", total.insertion_histories);
+    rep.count("fault_prints_after_a_different_dropped_map", total.prints_after_other_map);
     rep.count("fault_permuted_module_and_json_texts", total.permuted_texts);
     rep.count("value_roundtrips", total.value_roundtrips);
     rep.count("type_roundtrips", total.type_roundtrips);
